@@ -560,8 +560,9 @@ bool ClipperOffset::CheckReverseOrientation()
 {
 	// nb: this assumes there's consistency in orientation between groups
 	bool is_reversed_orientation = false;
+	// (a polygon group without any vertex has no orientation and contributes nothing)
 	for (const Group& g : groups_)
-		if (g.end_type == EndType::Polygon)
+		if (g.end_type == EndType::Polygon && g.lowest_path_idx.has_value())
 		{
 			is_reversed_orientation = g.is_reversed;
 			break;
